@@ -296,6 +296,7 @@ class MonoTimer(object):
         """ Restarts timer at stop so no time lost
 
         """
+        self.update() #shift .stop first if clock retrograded
         return self.restart(start=self.stop)
 
     def extend(self, extension=None):
